@@ -23,11 +23,11 @@ import json
 import sys
 
 import stepcode.AggregationDataTypes as A
-from stepcode.SimpleDataTypes import INTEGER, REAL, STRING, Unknown
+from stepcode.SimpleDataTypes import INTEGER, REAL, STRING, BINARY, Unknown
 
 import c19_nest
 
-TYPES = {'INTEGER': INTEGER, 'REAL': REAL, 'STRING': STRING}
+TYPES = {'INTEGER': INTEGER, 'REAL': REAL, 'STRING': STRING, 'BINARY': BINARY}
 
 
 BUILDER = [None]        # builder of the container under test (seq mode with a nested base type / aggregate values)
